@@ -56,6 +56,18 @@ def run(tier):
         except Exception as ex:
             ck.violation("GpLinearInverter raised on a valid problem", {**idn, "error": repr(ex)[:300]}, site="GpLinearInverter")
             continue
+        try:
+            if np.all(pos == np.round(pos)):
+                inv_i = GpLinearInverter(y=y.astype(int), y_err=yerr.copy(), model_matrix=A.astype(int), parameter_spatial_positions=pos.astype(int),
+                                         prior_covariance_function=G.build_kernel(pb["kern"], d, p)[0], prior_mean_function=G.build_mean(pb["mean"])[0])
+                mu_i, Sig_i = inv_i.calculate_posterior(th)
+                ev_i = float(inv_i.marginal_likelihood(th))
+                ck.case(str(idn) + "int")
+                if not (np.allclose(mu_i, mu, rtol=1e-12, atol=1e-12) and np.allclose(Sig_i, Sig, rtol=1e-12, atol=1e-12) and abs(ev_i - ev) <= 1e-10 * max(1.0, abs(ev))):
+                    ck.violation("integer-typed data / model matrix / positions give the same posterior and evidence as the equal float arrays",
+                                 {**idn, "mean_float_inputs": mu, "mean_integer_inputs": mu_i}, site="GpLinearInverter:input-form")
+        except Exception as ex:
+            ck.violation("GpLinearInverter raised on integer-typed inputs", {**idn, "error": repr(ex)[:300]}, site="GpLinearInverter:input-form")
         if not repeat_ok:
             ck.violation("results do not depend on which methods were called before (repeated calls return the same values)",
                          {**idn, "first_mean_only": mu2, "second_mean_only": mu2b, "third_mean_only": mu2c}, site="GpLinearInverter:repeat")
